@@ -13,16 +13,16 @@ NOT_CLAIMED = {}
 PROPS = {
     "C13": {
         "technique": "Coq proof (invariant by induction over all operation sequences) + model/implementation correspondence",
-        "level_text": "proof: theorems C13_model_meets_spec / C13_at_most_one_status / C13_status_before_body / C13_head_forwards_no_body "
+        "level_text": "proof: theorems C13_model_meets_spec / C13_at_most_one_status / C13_status_before_body / C13_head_forwards_no_body / C13_hooks_in_one_operation "
                       "hold for every method and every operation sequence of the Gallina model of response_writer.go; the model is tied to "
-                      "the code by running both on the same generated sequences (incl. short writes of the underlying writer) and judging "
+                      "the code by running both on the same generated sequences (incl. short writes of the underlying writer and before functions that panic) and judging "
                       "the implementation's own outputs with the extracted executable spec",
         "level_note": "trusts the Coq kernel, extraction (ExtrOcamlBasic), the OCaml/Go glue and that sampled correspondence generalises; "
                       "status codes are non-zero; hooks do not re-enter the writer; Hijack/Push not modelled",
         "n_quick": 4000, "n_thorough": 60000, "exhaustive_in_thorough": True,
         "rule": "random op sequences (<=12 ops; WriteHeader codes 100..999, Write of 0..5 arbitrary bytes with an underlying writer that "
-                "sometimes accepts fewer, Flush, Before, Status, Size, Written) for HEAD and other methods; thorough adds every sequence "
-                "of length <=5 over an 8-op alphabet x {GET,HEAD}.  Non-trivial: a hook is registered and >=2 operations can trigger the "
+                "sometimes accepts fewer, Flush, Before - one in five panicking -, Status, Size, Written) for HEAD and other methods; thorough adds every sequence "
+                "of length <=5 over a 9-op alphabet x {GET,HEAD}.  Non-trivial: a hook is registered and >=2 operations can trigger the "
                 "status line; distinct by input.",
         "what": "Theorems (coq/Props/C13.v): for every method and every op sequence the model of response_writer.go is accepted by the "
                 "executable judgement spec_ok, and acceptance implies <=1 status line, status before body, no body for HEAD. "
